@@ -216,6 +216,8 @@ void OPNChipBaseT<T>::setupResampler(uint32_t rate)
     m_samples[0] = m_samples[1] = 0;
     m_samplecnt = 0;
     m_rateratio = (int32_t)(uint32_t)((((uint64_t)144 * rate) << rsm_frac) / m_clock);
+    if(m_rateratio < 1) // Rates of a few Hz round to 0: the resampling loop would never end
+        m_rateratio = 1;
 #endif
 }
 
